@@ -315,7 +315,7 @@ fn subs_for<B: Backend>(out: &mut Vec<SubCheck>) {
         ));
     }
     // high-cost parameters ("any other valid cost parameters"): far above the defaults, a few cases.
-    // Bounded by what is affordable: 1-1.5 M iterations / 64-192 MiB in quick, up to 5 M / 512 MiB thorough.
+    // Bounded by what is affordable: 1-1.5 M iterations / 64-192 MiB in quick, up to 5 M / 512 MiB thorough, plus 4 GiB and just above it (thorough).
     out.push(SubCheck::prop(
         format!("c05.roundtrip/{}/pbkw-high-cost", B::NAME),
         14,
@@ -324,7 +324,14 @@ fn subs_for<B: Backend>(out: &mut Vec<SubCheck>) {
             let params: BoxedStrategy<PwParams> = if B::VER.nist() {
                 (1_000_001u32..=tier.pick(1_500_000, 5_000_000)).prop_map(|iterations| PwParams::Pbkdf2 { iterations }).boxed()
             } else {
-                (64u64..=tier.pick(192, 512), 1u32..=tier.pick(3, 6)).prop_map(|(mib, time)| PwParams::Argon2id { mem_bytes: mib << 20, time, para: 1 }).boxed()
+                // thorough: also memory costs at and just above 4 GiB (32-bit byte counts end there)
+                match tier {
+                    Tier::Quick => (64u64..=192, 1u32..=3).prop_map(|(mib, time)| PwParams::Argon2id { mem_bytes: mib << 20, time, para: 1 }).boxed(),
+                    Tier::Thorough => prop_oneof![
+                        3 => (64u64..=512, 1u32..=6).prop_map(|(mib, time)| PwParams::Argon2id { mem_bytes: mib << 20, time, para: 1 }),
+                        2 => prop::sample::select(vec![4096u64, 4097, 4100]).prop_map(|mib| PwParams::Argon2id { mem_bytes: mib << 20, time: 1, para: 1 }),
+                    ].boxed(),
+                }
             };
             (params, gens::key_seed(), gens::password()).prop_map(|(p, wrapped, password)| Case {
                 op: Op::Pbkw(p),
@@ -344,6 +351,33 @@ fn subs_for<B: Backend>(out: &mut Vec<SubCheck>) {
             r
         },
     ));
+    // Argon2id memory cost at 4 GiB (where a 32-bit byte count ends): one case per v2 / v4 back end
+    // (about 6 s per KDF run, 4 GiB resident while it runs)
+    if !B::VER.nist() {
+        out.push(SubCheck::prop_exact(
+            format!("c05.roundtrip/{}/pbkw-4gib", B::NAME),
+            16,
+            (1, 2),
+            move |_tier| {
+                (prop::sample::select(vec![4096u64, 4097]), gens::key_seed(), gens::password()).prop_map(|(mib, wrapped, password)| Case {
+                    op: Op::Pbkw(PwParams::Argon2id { mem_bytes: mib << 20, time: 1, para: 1 }),
+                    secret: false,
+                    key_random: false,
+                    wrapped: wrapped.clone(),
+                    wrapping: wrapped,
+                    password,
+                    iv: None,
+                })
+            },
+            |c: &Case, acc: &mut Acc| {
+                let r = run_case::<B>(c, acc);
+                if r.is_ok() {
+                    acc.class("pbkw:memory>=4GiB");
+                }
+                r
+            },
+        ));
+    }
     // default-cost PBKW (expensive KDF): a handful
     out.push(SubCheck::prop(
         format!("c05.roundtrip/{}/pbkw-default-cost", B::NAME),
@@ -370,7 +404,7 @@ pub fn def() -> PropertyDef {
     PropertyDef {
         id: "C05",
         level: "exploration",
-        rule: "proptest cases (back end x {PIE, PBKW, PKE} x wrapped key {local, secret; parsed, random()} x wrapping key / password (any bytes incl. empty) / PBKW parameters (cheapest, random within budget, default, and a few high-cost ones: > 10^6 PBKDF2 iterations / 64-192 MiB Argon2id) x recipient pair; v1 RSA-KEM draw scripted so that the ciphertext has 1-2 leading zero bytes; v1/v3 derived AES-CTR counter block forced (hook) to values whose counter carries past 64 / 128 bits, for wrap and unwrap alike); oracle = wrap ok, own text parses and re-serialises, unwrap returns the same key bytes, decoded length equals the format's fixed length; non-trivial iff non-default parameters, secret key payload, constructed draw, or parsed key",
+        rule: "proptest cases (back end x {PIE, PBKW, PKE} x wrapped key {local, secret; parsed, random()} x wrapping key / password (any bytes incl. empty) / PBKW parameters (cheapest, random within budget, default, and a few high-cost ones: > 10^6 PBKDF2 iterations / 64-192 MiB Argon2id, and one Argon2id case at 4 GiB per v2/v4 back end) x recipient pair; v1 RSA-KEM draw scripted so that the ciphertext has 1-2 leading zero bytes; v1/v3 derived AES-CTR counter block forced (hook) to values whose counter carries past 64 / 128 bits, for wrap and unwrap alike); oracle = wrap ok, own text parses and re-serialises, unwrap returns the same key bytes, decoded length equals the format's fixed length; non-trivial iff non-default parameters, secret key payload, constructed draw, or parsed key",
         assumptions: vec![
             "PBKW parameters are bounded (<= 4 MiB / 3 passes / 10000 iterations) except the few default-cost cases",
             "v1 keys come from a committed pool of RSA-2048/4096 keys",
